@@ -261,12 +261,24 @@ func c19CLI(e *Env) {
 			o := runAtlas(e, dir, nil, "schema", "apply", "--env", "local", "--auto-approve")
 			judge(fmt.Sprintf("exclude-env:%d", i), fmt.Sprintf("`schema apply --env local --auto-approve` with exclude = %v in the environment", c.pats), db, o, c.absent)
 			in := runAtlas(e, dir, nil, "schema", "inspect", "--env", "local")
+			// the same database and desired state named through env:// URLs (attributes of the environment)
+			in2 := runAtlas(e, dir, nil, "schema", "inspect", "--env", "local", "--url", "env://url")
 			os.Remove(filepath.Join(dir, db))
+			db2 := fresh(fmt.Sprintf("exenvu%d.sqlite", i))
+			os.WriteFile(filepath.Join(dir, "atlas.hcl"), []byte("env \"local\" {\n  url = \"sqlite://"+db2+"\"\n  src = \"file://schema.sql\"\n  dev = \"sqlite://dev?mode=memory\"\n  exclude = ["+strings.Join(qs, ", ")+"]\n}\n"), 0o644)
+			o2 := runAtlas(e, dir, nil, "schema", "apply", "--env", "local", "--url", "env://url", "--to", "env://src", "--auto-approve")
+			judge(fmt.Sprintf("exclude-env-url:%d", i), fmt.Sprintf("`schema apply --env local --url env://url --to env://src --auto-approve` with exclude = %v in the environment", c.pats), db2, o2, c.absent)
+			os.Remove(filepath.Join(dir, db2))
 			os.Remove(filepath.Join(dir, "atlas.hcl"))
-			for _, h := range c.hidden {
-				if in.Code == 0 && strings.Contains(in.Stdout, "\""+h+"\"") {
-					e.Res.Violate("failing-input", "cli-excluded-resource-inspected", fmt.Sprintf("`schema inspect --env local` with exclude = %v still prints %q:\n%s", c.pats, h, trunc(in.Stdout, 600)), "Props.C19 exclude (CLI)", map[string]any{"case": c.pats})
-					break
+			for _, x := range []struct {
+				o   cliOut
+				cmd string
+			}{{in, "schema inspect --env local"}, {in2, "schema inspect --env local --url env://url"}} {
+				for _, h := range c.hidden {
+					if x.o.Code == 0 && strings.Contains(x.o.Stdout, "\""+h+"\"") {
+						e.Res.Violate("failing-input", "cli-excluded-resource-inspected", fmt.Sprintf("`%s` with exclude = %v still prints %q:\n%s", x.cmd, c.pats, h, trunc(x.o.Stdout, 600)), "Props.C19 exclude (CLI)", map[string]any{"case": c.pats})
+						break
+					}
 				}
 			}
 		}
@@ -285,6 +297,58 @@ func c19CLI(e *Env) {
 		for _, must := range []string{"keep"} {
 			if len(c.absent) < len(c19Kinds) && !strings.Contains(in.Stdout, "\""+must+"\"") {
 				e.Res.Violate("failing-input", "cli-other-change-lost", fmt.Sprintf("`schema inspect --exclude %v` no longer prints table %q", c.pats, must), "Props.C19 exclude (CLI)", map[string]any{"case": c.pats})
+			}
+		}
+	}
+}
+
+// c19NameClash: a table named like the schema the connection is bound to (SQLite: "main"). Patterns are relative
+// to that schema: "main.audit" is the column (or index ...) audit of TABLE main - the table audit stays.
+func c19NameClash(e *Env) {
+	if e.Atlas == "" {
+		return
+	}
+	dir := filepath.Join(e.Work, "c19clash")
+	os.RemoveAll(dir)
+	os.MkdirAll(dir, 0o755)
+	defer os.RemoveAll(dir)
+	if err := execSQL(filepath.Join(dir, "db.sqlite"),
+		"CREATE TABLE main (id integer NOT NULL, audit text NULL, other text NULL, PRIMARY KEY (id))",
+		"CREATE TABLE audit (id integer NOT NULL, PRIMARY KEY (id))",
+		"CREATE TABLE third (id integer NOT NULL, main integer NULL, PRIMARY KEY (id))"); err != nil {
+		return
+	}
+	type cl struct {
+		pats          []string
+		gone, present []string
+	}
+	for i, c := range []cl{
+		{[]string{"main.audit"}, []string{`column "audit"`}, []string{`table "audit"`, `table "main"`, `column "other"`, `table "third"`}},
+		{[]string{"main.*"}, []string{`column "audit"`, `column "other"`}, []string{`table "audit"`, `table "main"`, `table "third"`}},
+		{[]string{"main"}, []string{`table "main"`, `column "audit"`}, []string{`table "audit"`, `table "third"`, `column "main"`}},
+		{[]string{"third.main"}, []string{`column "main"`}, []string{`table "audit"`, `table "main"`, `table "third"`, `column "audit"`}},
+	} {
+		var xs []string
+		for _, p := range c.pats {
+			xs = append(xs, "--exclude", p)
+		}
+		in := runAtlas(e, dir, nil, append([]string{"schema", "inspect", "--url", "sqlite://db.sqlite"}, xs...)...)
+		e.Res.Count(fmt.Sprintf("cli:name-clash:%d", i), true, "cli:inspect", "name-clash")
+		rep := map[string]any{"case": c.pats, "tables": "main(id, audit, other), audit(id), third(id, main)"}
+		if in.Code != 0 {
+			e.Res.Violate("failing-input", "cli-plan-fails", fmt.Sprintf("`schema inspect --exclude %v` fails: %s", c.pats, trunc(in.Stderr, 300)), "Props.C19 CLI", rep)
+			continue
+		}
+		for _, g := range c.gone {
+			if strings.Contains(in.Stdout, g) {
+				e.Res.Violate("failing-input", "cli-excluded-resource-inspected", fmt.Sprintf("`schema inspect --exclude %v` on a schema-bound connection whose schema (main) also names a table still prints %s:\n%s", c.pats, g, trunc(in.Stdout, 600)), "Props.C19 exclude (CLI)", rep)
+				break
+			}
+		}
+		for _, p := range c.present {
+			if !strings.Contains(in.Stdout, p) {
+				e.Res.Violate("failing-input", "cli-other-change-lost", fmt.Sprintf("`schema inspect --exclude %v` on a schema-bound connection whose schema (main) also names a table no longer prints %s, which no pattern matches:\n%s", c.pats, p, trunc(in.Stdout, 600)), "Props.C19 exclude (CLI)", rep)
+				break
 			}
 		}
 	}
